@@ -180,6 +180,11 @@ class Modes(Relation):
         rs = spec['region']
         cls = rs['cls']
         mode, sub = spec['mode'], spec['subpixels']
+        if mode == 'exact' and sub not in (1, 5, None):
+            # the subpixel count is irrelevant in exact mode; a negative one
+            # would only matter to a kernel that wrongly sub-samples (and
+            # would then loop ~2^32 times)
+            sub = 5
         reg = S.build(rs)
         ctx.label(cls, f'mode:{mode}', f'sub:{sub!r}')
         valid_mode = mode in ('center', 'exact', 'subpixels')
